@@ -239,3 +239,25 @@ PROPS["C08"] = {
         {"func": "verifH_C08_orchestration", "pkg": "reader", "params": {"panic": [0, 1, 2], "errs": [0, 1], "files": [1]}, "params_thorough": {"files": [0, 1]}, "unwind": 64, "no_replay": True, "redirect": _C08_REDIR, "expect_reach": ["ran", "complete", "read-error"]},
     ],
 }
+
+_CA = "github.com/gmrtd/gmrtd/chipauth."
+PROPS["C14"] = {
+    "patterns": ["./chipauth", "./verifier"],
+    "harness": {"chipauth": ["chipauth/c14.go"], "verifier": ["verifier/c14.go"]},
+    "level_text": "Claimed in part. (1) Offline verifier: the real SSA of Verifier.Verify/WithAAChallenge with decoding, the three evidence verifications, passive authentication and the completeness check replaced by recording stubs with symbolic outcomes: each present evidence is verified exactly once over the imported document and its verdict/error recorded unchanged, passive authentication runs over the imported document, the completeness verdict is recorded, a supplied AA challenge that differs from the recorded nonce in any byte is a hard failure, verdict failures are not fatal. With C02 (verdict gating is a function of these session fields only) and C15 (export/import) this gives equality of live and offline verdicts given equal documents and evidence verdicts. (2) chipauth.VerifyEvidence on arbitrary evidence (fields absent / present with small lengths, counter field of 0..17 bytes, 3DES and AES), curve arithmetic and key decoding stubbed nondeterministically: never panics, errors for documents without DG14 / security infos, success returns the verified evidence and only after the captured protected response passed SecureMessaging.Decode (C03) with status 9000.",
+    "level_note": "Not applicable / outside: that evidence captured from a genuine session always verifies and that changing a single evidence field makes verification fail are statements about elliptic-curve arithmetic, ECDH and the KDF on real curves (crypto/elliptic, brainpool, math/big) which cannot be encoded here; pace.VerifyEvidence's chain and the AA signature (C07) likewise. CBOR serialisation between live and offline is C15. Harnesses with injected stubs cannot be replayed natively; the no-DG14 harness is replayable.",
+    "bounds": "all combinations of present/absent evidence kinds and verdicts; 8-byte challenge and nonce symbolic; evidence fields up to 4 bytes, counter field up to 17 bytes",
+    "outside": "elliptic-curve level validity of evidence; PACE-CAM evidence chain",
+    "assumptions": [],
+    "jobs": [
+        {"func": "verifH_C14_ca_nodg14", "pkg": "chipauth", "unwind": 64, "expect_reach": ["returned"]},
+        {"func": "verifH_C14_verifier", "pkg": "verifier", "params": {"errs": [0, 1]}, "unwind": 64, "no_replay": True, "expect_reach": ["verified", "nonce-mismatch"],
+         "redirect": {"github.com/gmrtd/gmrtd/document.UnmarshalVerifiableDoc": "verifStubUnmarshal", "github.com/gmrtd/gmrtd/pace.VerifyEvidence": "verifStubCam",
+                      "github.com/gmrtd/gmrtd/chipauth.VerifyEvidence": "verifStubCa", "github.com/gmrtd/gmrtd/activeauth.VerifyEvidence": "verifStubAa",
+                      "github.com/gmrtd/gmrtd/passiveauth.PassiveAuth": "verifStubPA", "(*github.com/gmrtd/gmrtd/document.Document).Verify": "verifStubDocVerify"}},
+        {"func": "verifH_C14_ca_fields", "pkg": "chipauth", "params": {"npri": [0, 2], "nrapdu": [0, 2, 4], "nssc": [0, 1, 8, 9, 17], "aes": [0, 1]}, "unwind": 64, "no_replay": True,
+         "redirect": {_CA + "selectChipAuthParams": "verifStubSelectParams", _CA + "deriveSessionKeys": "verifStubDeriveKeys",
+                      "(*github.com/gmrtd/gmrtd/cms.SubjectPublicKeyInfo).EcCurveAndPubKey": "verifStubEcCurveAndPubKey",
+                      "github.com/gmrtd/gmrtd/cryptoutils.DecodeX962EcPoint": "verifStubDecodePoint"}, "expect_reach": ["returned"]},
+    ],
+}
